@@ -58,6 +58,7 @@ Step(t, m, e) ==
          LET id == <<e.c, Len(Got(m, e.c)) + 1>> IN
          IF id \in DOMAIN t.slotOf /\ \A k \in DOMAIN t.slotOf[id] : Owner(t.table, t.slotOf[id][k]) # {}
          THEN [t EXCEPT !.viol = @ \cup {<<"C04", id[1], id[2], "owned-slot-answered-unknown-slot">>}] ELSE t
+    [] e.ev = "nup" -> [t EXCEPT !.reads = <<>>]      \* a node is back: what counts is how the reads are spread from now on
     [] e.ev = "quiesce" ->
          \* C20: a master whose slots received many reads: every usable replica served some of them
          LET masters == {o.master : o \in t.table}
